@@ -1,6 +1,6 @@
 (** C03 -- wire codec lossless, matches the SCION format, never truncates silently:
     property theorems only. *)
-From Sci Require Import Wire.Codec Wire.Spec_C03 Wire.Proofs_C03 Wire.BitFieldProofs Wire.ChecksumProofs Wire.RoundTripProofs Wire.ChecksumVerify Wire.LengthProofs.
+From Sci Require Import Wire.Codec Wire.Spec_C03 Wire.Proofs_C03 Wire.BitFieldProofs Wire.ChecksumProofs Wire.RoundTripProofs Wire.ChecksumVerify Wire.LengthProofs Wire.SpecAgreeProofs.
 Local Open Scope N_scope.
 
 (** A model that cannot be represented on the wire is rejected: whenever the encoder's gate
@@ -214,3 +214,39 @@ Proof.
   exact Rl.
 Qed.
 Print Assumptions length_fields_truthful.
+
+(** The independent reader agrees with the implementation's accessors on EVERY byte string,
+    field by field: the right-hand sides are literally the expressions of [Spec_C03]
+    (spec_header, spec_std, spec_info, spec_hop, spec_udp: byte offsets from the SCION header
+    specification, div / mod), the left-hand sides the model of the view accessors driven by the
+    generated bit-range tables.  A change of a bit range in the Rust tables breaks this proof.
+    Together with the per-layer round trips: the independent reader reads back from the
+    encoder's bytes the model that was encoded, layer by layer.
+    PARTIAL with respect to [spec_decode (encode m) = Some m] for whole packets: the layers are
+    not composed (offsets of address header / path / fields inside the header buffer, host
+    addresses, SCMP); composition is decided by the correspondence check. *)
+Theorem spec_decode_agrees_partial :
+  (forall b, bytes_ok b = true -> CommonHeader_SIZE_BYTES <= blen b ->
+     let b0 := be b 0 1 in let b1 := be b 1 1 in
+     hv_version b = Ok (b0 / 16) /\ hv_traffic_class b = Ok ((b0 mod 16) * 16 + b1 / 16)
+     /\ hv_flow_id b = Ok ((b1 mod 16) * 65536 + be b 2 2) /\ hv_next_header b = Ok (be b 4 1)
+     /\ hv_header_len b = Ok (be b 5 1 * 4) /\ hv_payload_len b = Ok (be b 6 2) /\ hv_path_type b = Ok (be b 8 1)
+     /\ hv_dst_addr_type b = Ok (be b 9 1 / 16) /\ hv_src_addr_type b = Ok (be b 9 1 mod 16)
+     /\ rd b CommonHeader_RSV_RNG 16 = Ok (be b 10 2))
+  /\ (forall p, bytes_ok p = true -> StdPathMeta_SIZE_BYTES <= blen p ->
+     let m := be p 0 4 in
+     sp_curr_info p = Ok (m / 2 ^ 30) /\ sp_curr_hop p = Ok ((m / 2 ^ 24) mod 64)
+     /\ rd p StdPathMeta_RSV_RNG 8 = Ok ((m / 2 ^ 18) mod 64)
+     /\ sp_seg0 p = Ok ((m / 2 ^ 12) mod 64) /\ sp_seg1 p = Ok ((m / 2 ^ 6) mod 64) /\ sp_seg2 p = Ok (m mod 64))
+  /\ (forall v, bytes_ok v = true -> InfoField_SIZE_BYTES <= blen v ->
+     if_flags v = Ok (be v 0 1) /\ if_segment_id v = Ok (be v 2 2) /\ if_timestamp v = Ok (be v 4 4)
+     /\ rd v InfoField_RSV_RNG 8 = Ok (be v 1 1))
+  /\ (forall v, bytes_ok v = true -> HopField_SIZE_BYTES <= blen v ->
+     hf_flags v = Ok (be v 0 1) /\ hf_exp_time v = Ok (be v 1 1) /\ hf_cons_ingress v = Ok (be v 2 2)
+     /\ hf_cons_egress v = Ok (be v 4 2) /\ hf_mac v = Ok (sl v 6 6))
+  /\ (forall v, bytes_ok v = true -> UdpDatagram_HEADER_SIZE_BYTES <= blen v ->
+     udp_src_port v = Ok (be v 0 2) /\ udp_dst_port v = Ok (be v 2 2) /\ udp_length v = Ok (be v 4 2) /\ udp_checksum v = Ok (be v 6 2)).
+Proof.
+  refine (conj spec_common_agrees (conj spec_meta_agrees (conj spec_info_agrees (conj spec_hop_agrees spec_udp_agrees)))).
+Qed.
+Print Assumptions spec_decode_agrees_partial.
